@@ -113,6 +113,24 @@ def api_events(rng: random.Random) -> List[List[int]]:
     return ev
 
 
+def range_events() -> List[List[int]]:
+    """max / min-normal / min-subnormal properties of every format against the spec's value set."""
+    import math
+
+    from unit_scaling.formats import FPFormat
+
+    ev = []
+    for (E, M) in quant.ALL_FORMATS:
+        f = FPFormat(E, M, rounding="nearest")
+        mx = float(f.max_absolute_value)
+        pat = int(np.float32(mx).view(np.uint32)) if np.float64(np.float32(mx)) == mx else -1
+        mn, ms = float(f.min_absolute_normal), float(f.min_absolute_subnormal)
+        (m1, e1), (m2, e2) = math.frexp(mn), math.frexp(ms)
+        pow2 = int(m1 == 0.5 and m2 == 0.5)
+        ev.append([E, M, 6, 0, 0, pat, e1 - 1, e2 - 1, pow2, 0])
+    return ev
+
+
 def exhaustive(E: int, M: int, rep: Report) -> List[List[int]]:
     """All 2^32 float32 patterns (finite + inf) through the real code, compressed
     to maximal runs; Nearest at both ends of a run decides the whole run."""
@@ -166,7 +184,7 @@ def run(rep: Report, tier: str) -> None:
         n_inputs += n
         all_events += ev
         rep.case(("fmt", E, M))
-    api = api_events(rng)
+    api = api_events(rng) + range_events()
     all_events += api
     if not quick:
         for (E, M) in [(4, 3), (5, 2)]:
